@@ -23,7 +23,12 @@ Record memtable := { mt_info : list (Z * dinfo); mt_frozen : bool; mt_size : Z; 
 Definition new_memtable : memtable := {| mt_info := []; mt_frozen := false; mt_size := 0; mt_count := 0 |}.
 
 (** state of one component file of a segment *)
-Inductive fstate := FComplete | FBroken | FMissing.   (* broken = empty / truncated / bad gzip *)
+Inductive fstate := FComplete | FBroken | FMissing | FEmpty | FTrailer.
+(* FTrailer: a component file cut after its complete payload (end-of-stream marker / 8-byte gzip
+   trailer missing): deserialising it succeeds; the error only shows when the NEXT component is read,
+   and never if it is the last one (the checksum is never verified) *)
+(* broken = gzip header present, stream truncated (fails while reading);  empty = shorter than a gzip
+   header (fails when the file is opened, before anything is deserialised) *)
 
 Record segment := {
   sg_id : Z;
@@ -127,36 +132,41 @@ Definition st_close (s : store) : store * Z :=
     after the other INTO THE SHARED TRIPLE; a broken stream aborts, keeping what was already loaded *)
 Definition load_segment (t : triple) (g : segment) : triple * bool :=
   let '(fh, fv, ft, fm) := sg_files g in
-  let present (f : fstate) (configured : bool) := negb configured || match f with FMissing => false | _ => true end in
+  let present (f : fstate) (configured : bool) := negb configured || match f with FMissing | FEmpty => false | _ => true end in
   let hv := match t_vec t with Some _ => true | None => false end in
   let ht := match t_txt t with Some _ => true | None => false end in
   let hm := match t_meta t with Some _ => true | None => false end in
+  (* a stream whose payload is intact (FComplete / FTrailer) can be deserialised; with FTrailer the
+     NEXT read (crossing to the following component) fails *)
+  let readable (f : fstate) := match f with FComplete | FTrailer => true | _ => false end in
+  let clean (f : fstate) := match f with FComplete => true | _ => false end in
   if negb (present fh true && present fv hv && present ft ht && present fm hm) then (t, false)
-  else match fh with
-       | FComplete =>
-           let t1 := if hv then match fv with
-                                | FComplete => Some {| t_p := t_p t; t_vec := t_vec (sg_T g); t_txt := t_txt t; t_meta := t_meta t |}
-                                | _ => None end
-                     else Some t in
-           match t1 with
-           | None => (t, false)
-           | Some t1 =>
-               let t2 := if ht then match ft with
-                                    | FComplete => Some {| t_p := t_p t1; t_vec := t_vec t1; t_txt := t_txt (sg_T g); t_meta := t_meta t1 |}
-                                    | _ => None end
-                         else Some t1 in
-               match t2 with
-               | None => (t1, false)
-               | Some t2 =>
-                   if hm then match fm with
-                              | FComplete => ({| t_p := t_p t2; t_vec := t_vec t2; t_txt := t_txt t2; t_meta := t_meta (sg_T g) |}, true)
-                              | _ => (t2, false)
-                              end
-                   else (t2, true)
-               end
-           end
-       | _ => (t, false)
-       end.
+  else if negb (readable fh) then (t, false)
+  else if negb (clean fh) && (hv || ht || hm) then (t, false)
+  else
+    (* vector *)
+    let after_v : triple * bool * bool :=      (* state, ok so far, stream end still clean *)
+        if hv then
+          if readable fv then ({| t_p := t_p t; t_vec := t_vec (sg_T g); t_txt := t_txt t; t_meta := t_meta t |}, true, clean fv)
+          else (t, false, false)
+        else (t, true, true) in
+    let '(t1, ok1, clean1) := after_v in
+    if negb ok1 then (t1, false)
+    else if negb clean1 && (ht || hm) then (t1, false)
+    else
+      let after_t : triple * bool * bool :=
+          if ht then
+            if readable ft then ({| t_p := t_p t1; t_vec := t_vec t1; t_txt := t_txt (sg_T g); t_meta := t_meta t1 |}, true, clean ft)
+            else (t1, false, false)
+          else (t1, true, true) in
+      let '(t2, ok2, clean2) := after_t in
+      if negb ok2 then (t2, false)
+      else if negb clean2 && hm then (t2, false)
+      else
+        if hm then
+          if readable fm then ({| t_p := t_p t2; t_vec := t_vec t2; t_txt := t_txt t2; t_meta := t_meta (sg_T g) |}, true)
+          else (t2, false)
+        else (t2, true).
 
 (** one hybrid search per memtable (newest first), then one per segment in list order *)
 Definition results_of (r : hyres) : option (list (Z * Z)) :=
